@@ -34,6 +34,15 @@ def changes_for(pid, kind):
     return out
 
 
+def touch_changed(diff, srepo):
+    for l in open(diff, errors='replace'):
+        m = re.match(r'^(?:---|\+\+\+) (?:[ab]/)?(\S+)', l)
+        if m:
+            f = os.path.join(srepo, m.group(1))
+            if os.path.isfile(f):
+                os.utime(f, None)
+
+
 def run_check(sv, srepo, pid, tier, seed):
     env = dict(os.environ)
     env['VERIF_REPO'] = srepo
@@ -88,6 +97,7 @@ def do_prop(pid, args):
             res[name] = {'applied': False, 'error': a.stdout[-500:]}
             print('%s %s: DOES NOT APPLY' % (pid, name), flush=True)
             sh(['rsync', '-a', '--delete', '--exclude', '.git', '--exclude', '_build', REPO + '/', srepo + '/'])
+            touch_changed(diff, srepo)
             continue
         r = run_check(sv, srepo, pid, args.tier, args.seed)
         r['applied'] = True
@@ -103,8 +113,11 @@ def do_prop(pid, args):
             r['other_checks'] = others
         res[name] = r
         print('%s %s: %s (%d violation line(s), kinds %s, %ds)' % (pid, name, 'CAUGHT' if r['caught'] else 'MISSED', r['violations'], ','.join(r['kinds']), r['secs']), flush=True)
-        # restore the clean tree (rsync --delete is robust against new files created by a patch)
+        # restore the clean tree (rsync --delete is robust against new files created by a patch) and give every file the
+        # change touched a NEW modification time: rsync -a restores the old time stamp, and make/ninja and the harness
+        # dependency files would then consider the objects built from the changed file up to date
         sh(['rsync', '-a', '--delete', '--exclude', '.git', '--exclude', '_build', REPO + '/', srepo + '/'])
+        touch_changed(diff, srepo)
     shutil.rmtree(S, ignore_errors=True)
     return pid, res
 
